@@ -386,7 +386,12 @@ impl BudgetEnforcer {
             }
             Event::DocumentStart(_explicit) => {
                 if self.policy == EnforcingPolicy::PerDocument {
+                    // Every document starts from a clean slate: the counters of the report and
+                    // the structural state they are derived from.
                     self.report.reset();
+                    self.depth = 0;
+                    self.defined_anchors.clear();
+                    self.containers.clear();
                 } else {
                     self.report.documents += 1;
                     if self.report.documents > self.budget.max_documents {
